@@ -42,11 +42,12 @@ import (
 // ---------------------------------------------------------------------------
 
 type fwdCtx struct {
-	p       *core.Program
-	pos     *types.Var            // Runner.Runtextpos
-	end     *types.Var            // Runner.Runtextend
-	summary map[*ssa.Function]int // callee -> index of the parameter its non-negative results are >= of (-1: none)
-	busy    map[*ssa.Function]bool
+	p          *core.Program
+	pos        *types.Var            // Runner.Runtextpos
+	end        *types.Var            // Runner.Runtextend
+	summary    map[*ssa.Function]int // callee -> index of the parameter its non-negative results are >= of (-1: none)
+	busy       map[*ssa.Function]bool
+	noSentinel map[*ssa.Function]bool // callee never returns the -1 "not found" answer
 }
 
 func isFieldLoad(v ssa.Value, f *types.Var) bool {
@@ -180,7 +181,7 @@ func (fc *fwdCtx) ge(v ssa.Value, facts []core.SSAFact, baseParam *ssa.Parameter
 		if cal := x.Call.StaticCallee(); cal != nil && core.InModule(cal) {
 			k := fc.summarise(cal)
 			if k >= 0 && k < len(x.Call.Args) {
-				if ok, _ := fc.ge(x.Call.Args[k], facts, baseParam, inProgress, depth+1); ok && fc.nonNeg(x, facts) {
+				if ok, _ := fc.ge(x.Call.Args[k], facts, baseParam, inProgress, depth+1); ok && (fc.noSentinel[cal] || fc.nonNeg(x, facts)) {
 					return true, ""
 				}
 				return false, fmt.Sprintf("result of %s: needs argument %d >= the position and a dominating test excluding the negative result", cal.Name(), k)
@@ -208,12 +209,14 @@ func (fc *fwdCtx) summarise(fn *ssa.Function) int {
 				continue
 			}
 			all, some := true, false
+			sentinel := false
 			for _, b := range fn.Blocks {
 				ret, ok := b.Instrs[len(b.Instrs)-1].(*ssa.Return)
 				if !ok {
 					continue
 				}
 				if c, isC := core.IntConst(ret.Results[0]); isC && c == -1 {
+					sentinel = true
 					continue
 				}
 				some = true
@@ -223,6 +226,10 @@ func (fc *fwdCtx) summarise(fn *ssa.Function) int {
 			}
 			if all && some {
 				res = k
+				if !sentinel {
+					// every return is >= the parameter: no "not found" answer to exclude at the call site
+					fc.noSentinel[fn] = true
+				}
 				break
 			}
 		}
@@ -241,7 +248,7 @@ func RFwdOnly(c *core.Ctx) {
 		c.Anchor("findFirstCharOptimized / Runner.Runtextpos / Runtextend")
 		return
 	}
-	fc := &fwdCtx{p: p, pos: pos, end: end, summary: map[*ssa.Function]int{}, busy: map[*ssa.Function]bool{}}
+	fc := &fwdCtx{p: p, pos: pos, end: end, summary: map[*ssa.Function]int{}, busy: map[*ssa.Function]bool{}, noSentinel: map[*ssa.Function]bool{}}
 	// functions reached through static calls
 	reach := map[*ssa.Function]bool{}
 	work := []*ssa.Function{root}
